@@ -793,7 +793,7 @@ spif_dlinked_list_insert_at(spif_dlinked_list_t self, spif_obj_t obj, spif_listi
 
     if (idx == 0) {
         return spif_dlinked_list_prepend(self, obj);
-    } else if (idx == (self->len - 1)) {
+    } else if (idx == self->len) {
         return spif_dlinked_list_append(self, obj);
     } else if (idx > self->len) {
         for (i = self->len; i < idx; i++) {
@@ -801,7 +801,8 @@ spif_dlinked_list_insert_at(spif_dlinked_list_t self, spif_obj_t obj, spif_listi
         }
         return spif_dlinked_list_append(self, obj);
     } else if (idx > (self->len / 2)) {
-        for (current = self->tail, i = self->len - 1; current->prev && i > idx; i--, current = current->prev);
+        /* Walk back to the item after which the new one goes (position idx - 1). */
+        for (current = self->tail, i = self->len; current->prev && i > idx; i--, current = current->prev);
         if (i != idx) {
             return FALSE;
         }
